@@ -71,6 +71,42 @@ def abs (x : Int) : Int := (x.natAbs : Int)
 def maxI (a b : Int) : Int := if a ≥ b then a else b
 def minI (a b : Int) : Int := if a ≤ b then a else b
 
+/-- `x.bit_length()` -/
+def bitLengthAux : Nat → Nat → Nat → Nat
+  | 0, _, k => k
+  | fuel + 1, n, k => if n = 0 then k else bitLengthAux fuel (n / 2) (k + 1)
+
+def bitLength (x : Int) : Int := (bitLengthAux (x.natAbs + 1) x.natAbs 0 : Nat)
+
+def digitChar (d : Nat) : Char := if d < 10 then Char.ofNat (48 + d) else Char.ofNat (87 + d)
+
+def digitsAux (b : Nat) : Nat → Nat → List Char → List Char
+  | 0, _, acc => acc
+  | fuel + 1, n, acc => if n = 0 then acc else digitsAux b fuel (n / b) (digitChar (n % b) :: acc)
+
+/-- `bin(x)[2:]`, `oct(x)[2:]`, `hex(x)[2:]` for `x ≥ 0` (lower-case digits; `"0"` for zero). -/
+def digitsOfBase (x : Int) (b : Nat) : PyM Text :=
+  if x < 0 then .error (.Other "NegativeOutsideSubset")
+  else if x = 0 then .ok ['0']
+  else .ok (digitsAux b (x.toNat + 1) x.toNat [])
+
+def digitValue (c : Char) : Option Nat :=
+  if '0' ≤ c ∧ c ≤ '9' then some (c.toNat - 48)
+  else if 'a' ≤ c ∧ c ≤ 'z' then some (c.toNat - 87)
+  else if 'A' ≤ c ∧ c ≤ 'Z' then some (c.toNat - 55)
+  else none
+
+/-- `int(s, b)` for a plain digit string (no sign, blanks, underscores or prefix: outside the subset). -/
+def intOfBase (s : Text) (b : Nat) : PyM Int :=
+  if s = [] then .error .ValueError
+  else
+    s.foldlM (fun (acc : Int) c => match digitValue c with
+      | some v => if v < b then .ok (acc * b + v) else .error .ValueError
+      | none => .error .ValueError) 0
+
+/-- `str.upper()` restricted to ASCII letters (digits of `hex()` output). -/
+def upperAscii (s : Text) : Text := s.map (fun c => if 'a' ≤ c ∧ c ≤ 'z' then Char.ofNat (c.toNat - 32) else c)
+
 /-- a sheet / table as `ItemsList` sees it: identity + current name -/
 structure Item where
   id : Int
